@@ -74,8 +74,14 @@ def judge(ctx, mode, extra, obs, acc):
             rmap, qmap = ctx.rmaps.get(int(j['RefContigID'])), ctx.qmaps.get(int(j['QryContigID']))
             ok = rmap and qmap and not matching_problems(union, len(rmap[1]), 1, len(qmap[1]), j['Orientation'] == '-')
             if ok and pj != union:
+                # which pairs were dropped?  'tail-of-parts' = exactly a tail (in listed order) of one or both parts is missing and
+                # nothing else differs - the shape produced by joining only the first segment of each record (finding F9)
+                missing = [x for x in union if x not in pj]
+                ta = [x for x in pa if x in missing]
+                tb = [x for x in pb if x in missing]
+                tails = (ta == pa[len(pa) - len(ta):]) and (tb == pb[len(pb) - len(tb):]) and set(ta) | set(tb) == set(missing)
                 bad('joined-record-is-not-the-valid-union', 'J %s union %s (A %s B %s)' % (pj, union, pa, pb), 'join',
-                    dict(sig, missing=len(union) - len(pj)))
+                    dict(sig, dropped='tail-of-parts' if tails else 'other'))
             if acc is not None:
                 acc.classes['joined-with-valid-union' if ok else 'joined-with-conflicting-parts'] += 1
     if acc is not None:
